@@ -20,6 +20,8 @@ from yatiml.util import ScalarType, scalar_type_to_tag
 
 _Any = NewType('_Any', int)
 
+_scalar_constructor = yaml.constructor.SafeConstructor()
+
 
 class Node:
     """A wrapper class for yaml Nodes that provides utility functions.
@@ -88,12 +90,17 @@ class Node:
         """
         if self.yaml_node.tag == 'tag:yaml.org,2002:str':
             return str(self.yaml_node.value)
+        # Parse the text like PyYAML does when loading, so that e.g. 0x1F,
+        # 1_000, .inf and .nan give the value that loading would give.
         if self.yaml_node.tag == 'tag:yaml.org,2002:int':
-            return int(self.yaml_node.value)
+            return cast(int, _scalar_constructor.construct_yaml_int(
+                self.yaml_node))
         if self.yaml_node.tag == 'tag:yaml.org,2002:float':
-            return float(self.yaml_node.value)
+            return cast(float, _scalar_constructor.construct_yaml_float(
+                self.yaml_node))
         if self.yaml_node.tag == 'tag:yaml.org,2002:bool':
-            return self.yaml_node.value in ['TRUE', 'True', 'true']
+            return cast(bool, _scalar_constructor.construct_yaml_bool(
+                self.yaml_node))
         if self.yaml_node.tag == 'tag:yaml.org,2002:null':
             return None
         raise RuntimeError('This node with tag "{}" is not of the right type'
